@@ -237,6 +237,9 @@ fn history_case(ctx: &mut Ctx, rng: &mut Rng, idx: u64) {
     let mut log: Vec<Value> = vec![];
     for step in 0..nops {
         let op = rng.below(10);
+        // half of the operations go through the Python-facing methods (update_py, set_ad_order_py)
+        let via_py = rng.bool();
+        ctx.class(if via_py { "route:python-facing-methods" } else { "route:core-methods" });
         let before = snapshot(&fx);
         let (desc, expect_ok): (Value, bool) = match op {
             0..=3 => {
@@ -269,7 +272,7 @@ fn history_case(ctx: &mut Ctx, rng: &mut Rng, idx: u64) {
                     ups.push(FXRate::try_new(&model.ccys[q.lhs], &model.ccys[q.rhs], nv.number(), ndt_opt(q.settlement)).unwrap());
                     newvals.push((*i, nv));
                 }
-                let r = guarded(|| fx.update(ups).is_ok());
+                let r = guarded(|| if via_py { fx.verif_py_update(ups).is_ok() } else { fx.update(ups).is_ok() });
                 ctx.class("op:update");
                 match r {
                     Caught::Ok(true) => {
@@ -311,7 +314,7 @@ fn history_case(ctx: &mut Ctx, rng: &mut Rng, idx: u64) {
                     let q = &model.quotes[0];
                     ups.insert(0, FXRate::try_new(&model.ccys[q.lhs], &model.ccys[q.rhs], Number::F64(gen_rate(rng)), ndt_opt(q.settlement)).unwrap());
                 }
-                let res = guarded(|| fx.update(ups).is_ok());
+                let res = guarded(|| if via_py { fx.verif_py_update(ups).is_ok() } else { fx.update(ups).is_ok() });
                 ctx.class("op:update-unknown-pair");
                 if !matches!(res, Caught::Ok(false)) {
                     ctx.violation("C10|history|unknown-pair-accepted", json!({"market": model.describe(), "pair": format!("{}{}", l, r), "result": format!("{:?}", matches!(res, Caught::Ok(true)))}));
@@ -323,7 +326,7 @@ fn history_case(ctx: &mut Ctx, rng: &mut Rng, idx: u64) {
                 // a known pair in the inverse orientation is not the quoted pair
                 let q = model.quotes[rng.usize(model.quotes.len())].clone();
                 let ups = vec![FXRate::try_new(&model.ccys[q.rhs], &model.ccys[q.lhs], Number::F64(gen_rate(rng)), ndt_opt(q.settlement)).unwrap()];
-                let res = guarded(|| fx.update(ups).is_ok());
+                let res = guarded(|| if via_py { fx.verif_py_update(ups).is_ok() } else { fx.update(ups).is_ok() });
                 ctx.class("op:update-inverse-orientation");
                 if !matches!(res, Caught::Ok(false)) {
                     ctx.violation("C10|history|inverse-orientation-accepted", json!({"market": model.describe(), "pair": format!("{}{}", model.ccys[q.rhs], model.ccys[q.lhs])}));
@@ -339,7 +342,7 @@ fn history_case(ctx: &mut Ctx, rng: &mut Rng, idx: u64) {
                     None => Some(crate::calmodel::days_from_civil(2026, 6, 1)),
                 };
                 let ups = vec![FXRate::try_new(&model.ccys[q.lhs], &model.ccys[q.rhs], Number::F64(gen_rate(rng)), ndt_opt(other)).unwrap()];
-                let res = guarded(|| fx.update(ups).is_ok());
+                let res = guarded(|| if via_py { fx.verif_py_update(ups).is_ok() } else { fx.update(ups).is_ok() });
                 ctx.class("op:update-inconsistent-settlement");
                 if !matches!(res, Caught::Ok(false)) {
                     ctx.violation("C10|history|inconsistent-settlement-accepted", json!({"market": model.describe()}));
@@ -349,7 +352,7 @@ fn history_case(ctx: &mut Ctx, rng: &mut Rng, idx: u64) {
             }
             _ => {
                 let k = rng.usize(3);
-                let res = guarded(|| fx.set_ad_order(ord(k)).is_ok());
+                let res = guarded(|| if via_py { fx.verif_py_set_ad_order(ord(k)).is_ok() } else { fx.set_ad_order(ord(k)).is_ok() });
                 ctx.class(&format!("op:set_ad_order:{}->{}", cur_order, k));
                 if !matches!(res, Caught::Ok(true)) {
                     ctx.violation(&format!("C10|history|set_ad_order-failed|{}->{}", cur_order, k), json!({"market": model.describe()}));
@@ -445,6 +448,8 @@ impl Prop for C10 {
         }
         v.push("update:same-value-other-derivative-content".to_string());
         v.push("update:identical-quote".to_string());
+        v.push("route:python-facing-methods".to_string());
+        v.push("route:core-methods".to_string());
         v
     }
     fn min_evaluations(&self, tier: Tier) -> u64 {
